@@ -255,6 +255,30 @@ def eps_direct(args):
 from .xhair import crosshair  # noqa: E402  (second opinion, thorough tier)
 
 
+def reuse(args):
+    """Multi-step: the SAME comparator object is first used on (concrete) vectors of one length and then on
+    symbolic vectors of another length (one Archive() default comparator instance is shared by every swarm
+    algorithm of a process).  The second verdict must still be the textbook one."""
+    m1, m2, which = args['m1'], args['m2'], args['which']
+    O = _install()
+    eps = EPS_LISTS[max(m1, m2)][0]
+
+    def body(ctx):
+        comp = O.ParetoDominance() if which == 'pareto' else O.EpsilonDominance(list(eps))
+        comp.compare([float(i) for i in range(m1)] + [0], [float(i + 1) for i in range(m1)] + [0])
+        comp.compare([1.0] * m1 + [1], [1.0] * m1 + [0])
+        p, q = _vec(ctx, 'p', m2, 'real'), _vec(ctx, 'q', m2, 'real')
+        e = comp.compare(p, q)
+        ctx.output('e', e)
+        same = And(*[a == b for a, b in zip(p[:-1], q[:-1])])
+        ctx.check('reused-comparator-agrees-with-textbook', And(Not(same), textbook(p, q) != e))
+        comp.compare([float(i) for i in range(m1)] + [0], [float(i + 1) for i in range(m1)] + [0])
+        p2, q2 = _vec(ctx, 'pb', m2, 'bool'), _vec(ctx, 'qb', m2, 'bool')
+        if which == 'pareto':
+            ctx.check('reused-comparator-second-round', textbook(p2, q2) != comp.compare(p2, q2))
+    return body
+
+
 def configs(tier):
     M = 4 if tier == 'quick' else 6
     MD = 2 if tier == 'quick' else 3
@@ -271,6 +295,10 @@ def configs(tier):
         for k, eps in enumerate(EPS_LISTS[m]):
             out.append({'name': 'eps-laws-m%d-eps%d' % (m, k), 'task': 'eps_laws',
                         'args': {'m': m, 'marker': 'bool' if k % 2 == 0 else 'real', 'eps': eps}, 'weight': m})
+    for m1, m2 in ((1, 2), (2, 1), (2, 3), (3, 2)):
+        for which in ('eps', 'pareto'):
+            out.append({'name': 'reuse-%s-m%d-then-m%d' % (which, m1, m2), 'task': 'reuse', 'args': {'m1': m1, 'm2': m2, 'which': which},
+                        'weight': 3 ** m2, 'engine': {'validate': 40}})
     for m in (1, 2):
         out.append({'name': 'eps-laws-m%d-symbolic-eps' % m, 'task': 'eps_laws',
                     'args': {'m': m, 'marker': 'bool', 'symbolic_eps': True}, 'weight': 5})
